@@ -85,7 +85,37 @@ var c13Shapes = []c13Shape{
 		return r
 	}, okEnd: true},
 	{name: "empty", build: func(id uint64, m, p string) *env.Rpc { return &env.Rpc{Id: id} }},
+	// (the shapes below are used by the focused "reset combinations" alphabet only)
+	{name: "reset+ok-status", build: func(id uint64, m, p string) *env.Rpc {
+		r := env.RespReset(id, m)
+		r.Status = &goatorepo.ResponseStatus{Code: 0, Message: "OK"}
+		return r
+	}, okEnd: true},
+	{name: "reset+error-status", build: func(id uint64, m, p string) *env.Rpc {
+		r := env.RespReset(id, m)
+		r.Status = &goatorepo.ResponseStatus{Code: 9, Message: "bad"}
+		return r
+	}},
+	{name: "reset+body", build: func(id uint64, m, p string) *env.Rpc {
+		r := env.RespReset(id, m)
+		r.Body = c13Body(p)
+		return r
+	}, data: true},
+	{name: "reset-no-trailer", build: func(id uint64, m, p string) *env.Rpc {
+		r := env.RespReset(id, m)
+		r.Trailer = nil
+		return r
+	}},
+	{name: "reset-no-trailer+ok-status", build: func(id uint64, m, p string) *env.Rpc {
+		r := env.RespReset(id, m)
+		r.Trailer = nil
+		r.Status = &goatorepo.ResponseStatus{Code: 0, Message: "OK"}
+		return r
+	}},
 }
+
+// the full alphabet of the exhaustive sequences: the first c13Full shapes
+const c13Full = 16
 
 type c13Stats struct{ n int }
 
@@ -102,7 +132,7 @@ func c13(tier string) []*explore.Scenario {
 	}
 	for _, mix := range []string{"uu", "us", "ss"} {
 		for _, st := range []bool{false, true} {
-			for si := range c13Shapes {
+			for si := 0; si < c13Full; si++ {
 				for target := 0; target < 3; target++ {
 					if tier != "thorough" && st && (si+target)%2 == 1 {
 						continue // quick: half of the first symbols with the stats handler
@@ -120,6 +150,17 @@ func c13(tier string) []*explore.Scenario {
 		for _, si := range c13FocusShapes {
 			for target := 0; target < 2; target++ {
 				out = append(out, c13SeqF(mix, false, si, target, maxLen+1, 0))
+			}
+		}
+	}
+	// resets in combination with status, body, missing trailer, mixed with messages and an OK trailer
+	for _, mix := range []string{"us", "ss"} {
+		for _, st := range []bool{false, true} {
+			for _, si := range c13ResetShapes {
+				if si < c13Full {
+					continue
+				}
+				out = append(out, c13SeqA(mix, st, si, 1, maxLen, 0, c13ResetShapes, "resets"), c13SeqA(mix, st, si, 0, 2, 0, c13ResetShapes, "resets"))
 			}
 		}
 	}
@@ -144,13 +185,20 @@ func c13Seq(mix string, withStats bool, first, firstTarget, maxLen, bound int) *
 // indices into c13Shapes for the focused longer sequences
 var c13FocusShapes = []int{0, 1, 3, 13} // body, header-only, trailer-ok, garbage-body
 
-var c13Focus = false
+var c13ResetShapes = []int{0, 3, 11, 16, 17, 18, 19, 20} // body, trailer-ok, reset, and the reset combinations
+
+// c13Focus: the alphabet of the sequence after its first symbol (nil: the full alphabet)
+var c13Focus []int
 
 func c13SeqF(mix string, withStats bool, first, firstTarget, maxLen, bound int) *explore.Scenario {
+	return c13SeqA(mix, withStats, first, firstTarget, maxLen, bound, c13FocusShapes, "focus")
+}
+
+func c13SeqA(mix string, withStats bool, first, firstTarget, maxLen, bound int, alphabet []int, label string) *explore.Scenario {
 	sc := c13SeqT(mix, withStats, first, firstTarget, maxLen, bound, false)
-	sc.Name = strings.Replace(sc.Name, "C13/seq/", "C13/focus/", 1)
+	sc.Name = strings.Replace(sc.Name, "C13/seq/", "C13/"+label+"/", 1)
 	inner := sc.Run
-	sc.Run = func() { c13Focus = true; defer func() { c13Focus = false }(); inner() }
+	sc.Run = func() { c13Focus = alphabet; defer func() { c13Focus = nil }(); inner() }
 	return sc
 }
 
@@ -221,16 +269,16 @@ func c13SeqT(mix string, withStats bool, first, firstTarget, maxLen, bound int, 
 			okEnd := []bool{false, false, false}
 			for pos := 0; pos < maxLen; pos++ {
 				si, tg := first, firstTarget
-				if pos > 0 && c13Focus {
-					c := vsched.Choose(len(c13FocusShapes) + 1)
-					if c == len(c13FocusShapes) {
+				if pos > 0 && c13Focus != nil {
+					c := vsched.Choose(len(c13Focus) + 1)
+					if c == len(c13Focus) {
 						break
 					}
-					si = c13FocusShapes[c]
+					si = c13Focus[c]
 					tg = vsched.Choose(2)
 				} else if pos > 0 {
-					c := vsched.Choose(len(c13Shapes) + 1)
-					if c == len(c13Shapes) {
+					c := vsched.Choose(c13Full + 1)
+					if c == c13Full {
 						break
 					}
 					si = c
